@@ -7,6 +7,7 @@ import (
 	"fmt"
 	"math/rand"
 	"os"
+	"time"
 )
 
 // Event is one recorded call of the real library in model coordinates.
@@ -44,8 +45,23 @@ func NewTracer(path string) *Tracer {
 		fmt.Fprintln(os.Stderr, "cannot create trace:", err)
 		os.Exit(2)
 	}
-	return &Tracer{w: bufio.NewWriterSize(f, 1<<20), f: f, seen: map[string]struct{}{}}
+	t := &Tracer{w: bufio.NewWriterSize(f, 1<<20), f: f, seen: map[string]struct{}{}}
+	hangTracer = t
+	return t
 }
+
+// A call that does not come back.  Drivers whose calls may hang on broken code (a loop that stops making progress)
+// register the event they are about to record in `inFlight`; if the call has not returned after hangLimit the event is
+// recorded with a non-empty `bad` (which no specification clause accepts), the trace is closed and the process exits
+// with status 3.  The check validates the trace up to there and re-executes the event: not returning twice is a
+// reproduced rejection.
+var (
+	hangTracer *Tracer
+	inFlight   *Event
+	hangLimit  = 150 * time.Second
+)
+
+const hangText = "the call did not return"
 
 // Emit writes one event. nontrivial is the per-op rule for the evidence
 // counter (e.g. result has more than one element / crosses a boundary).
@@ -122,6 +138,18 @@ func guard(f func() (any, error)) (o string, r any) {
 			r = fmt.Sprint(p)
 		}
 	}()
+	if ev := inFlight; ev != nil && hangTracer != nil {
+		timer := time.AfterFunc(hangLimit, func() {
+			e := *ev
+			e.O, e.R = "hang", []any{}
+			e.Bad = hangText + fmt.Sprintf(" within %v", hangLimit)
+			hangTracer.Emit(e, true)
+			hangTracer.Close()
+			fmt.Fprintln(os.Stderr, "watchdog:", e.Op, "did not return")
+			os.Exit(3)
+		})
+		defer timer.Stop()
+	}
 	res, err := f()
 	if err != nil {
 		return "err", res
